@@ -682,7 +682,7 @@ func gen(r *rand.Rand, tier string) []string {
 	n := 12000
 	nCli := 8
 	if tier == "thorough" {
-		n = 300000
+		n = 400000
 		nCli = 14
 	}
 	var out []string
@@ -729,6 +729,7 @@ func gen(r *rand.Rand, tier string) []string {
 	nBig := 3
 	if tier == "thorough" {
 		nBig = 60
+		out = append(out, exhaustiveCases()...)
 	}
 	for i := 0; i < nBig; i++ {
 		out = append(out, bigCase(r))
